@@ -69,7 +69,7 @@ CHECKS = {
        "stderr} x {only, first, last pipeline stage}, and emits each with the prescribed outcome; every case is rendered with "
        "random spelling (attached / spaced, 1> / >, >&2 / 1>&2), run by the real binary and judged by file contents, captured "
        "stdout / stderr of the whole line, what the next stage read, whether the command ran and $?, followed by a command that "
-       "checks nothing leaked. Commands with 4 redirections come from TLC simulation.",
+       "checks nothing leaked. Commands with 4 redirections come from TLC simulation. tokens_to_redirections is transcribed statement by statement (spec/RedirParse.tla): every list of up to 2 (thorough 3) tokens with words of up to 3 characters over {a, 1, 3, >, &} must be parsed by the real function exactly as by the transcription; TLC checks three sanity theorems on the transcription.",
   design_ref="DESIGN.md 3.3, 6 (C04)",
   note="Trusted: TLC, helper vio (single write(2) per stream), builtin reference text taken from an unredirected run; a file is "
        "opened at most once per generated command; diagnostics of the shell may appear on whatever stderr currently is.",
